@@ -55,11 +55,9 @@ Theorem C16_turbulence_valid : forall noise, (forall q, byte_px q -> byte_px (no
 Proof. exact turbulence_valid. Qed.
 Print Assumptions C16_turbulence_valid.
 
-(* feComposite arithmetic: any coefficients (infinite ones included), any two input pixels, as long as the alpha
-   computation itself is not NaN (that needs a non-finite coefficient); proved by monotonicity of binary32 rounding *)
-Theorem C16_arithmetic_valid : forall k1 k2 k3 k4 p1 p2,
-  is_nan (ar_result k1 k2 k3 k4 (ar_norm (pa p1)) (ar_norm (pa p2))) = false ->
-  valid_px (px_arithmetic k1 k2 k3 k4 p1 p2).
+(* feComposite arithmetic: ANY coefficients (overflowing, infinite, NaN), ANY two input pixels; proved by monotonicity of
+   binary32 rounding over the source-derived `calc` (including its non-finite guard) *)
+Theorem C16_arithmetic_valid : forall k1 k2 k3 k4 p1 p2, valid_px (px_arithmetic k1 k2 k3 k4 p1 p2).
 Proof. exact arithmetic_valid. Qed.
 Print Assumptions C16_arithmetic_valid.
 
